@@ -3,6 +3,8 @@ package main
 import (
 	"fmt"
 	"os"
+	"runtime/debug"
+	"strings"
 	"sync"
 	"time"
 )
@@ -46,7 +48,17 @@ func guarded(key string, f func() error) (r callResult) {
 		var res callResult
 		defer func() {
 			if p := recover(); p != nil {
-				res.panicked = p
+				// keep the innermost library frames with the panic value (message only, never part of a signature)
+				var fr []string
+				for _, l := range strings.Split(string(debug.Stack()), "\n") {
+					if strings.Contains(l, ".go:") && !strings.Contains(l, "/verif/") && !strings.Contains(l, "/go-1.") && !strings.Contains(l, "/usr/lib/go") {
+						fr = append(fr, strings.TrimSpace(strings.SplitN(strings.TrimSpace(l), " ", 2)[0]))
+					}
+				}
+				if len(fr) > 4 {
+					fr = fr[:4]
+				}
+				res.panicked = fmt.Sprintf("%v [at %s]", p, strings.Join(fr, " < "))
 			}
 			ch <- res
 		}()
